@@ -50,7 +50,7 @@ func transactSafely(db *kit.DB, ops []ovsdb.Operation) (out kit.TxnOutcome, pval
 		// the database stopped answering (its goroutine is left behind: the case fails anyway)
 		buf := make([]byte, 1<<16)
 		buf = buf[:runtime.Stack(buf, true)]
-		return out, fmt.Sprintf("no answer within %v", c19AnswerBound), "/repo/hang\n" + string(buf)
+		return out, fmt.Sprintf("no answer within %v", c19AnswerBound), repoDir() + "/hang\n" + string(buf)
 	}
 }
 
@@ -196,6 +196,9 @@ var hostileOps = []string{
 	`{"op":"commit","table":"$T"}`, `{"op":"commit","table":"$T","durable":true}`, `{"op":"commit"}`,
 	`{"op":"comment","table":"$T"}`, `{"op":"comment","table":"$T","comment":"x"}`,
 	`{"op":"assert","table":"$T"}`, `{"op":"assert","table":"$T","lock":"x"}`, `{"op":"abort","table":"$T"}`,
+	// the member of a sibling operation instead of its own
+	`{"op":"commit","table":"$T","comment":"x"}`, `{"op":"commit","table":"$T","lock":"x"}`, `{"op":"comment","table":"$T","durable":true}`,
+	`{"op":"comment","table":"$T","lock":"x"}`, `{"op":"assert","table":"$T","durable":false}`, `{"op":"assert","table":"$T","comment":"x"}`,
 	`{"op":"wait","table":"$T","timeout":0,"until":"=="}`, `{"op":"wait","table":"$T","timeout":0}`,
 	`{"op":"wait","table":"$T","timeout":0,"until":"==","columns":["nosuch"],"rows":[{}],"where":[]}`,
 	`{"op":"wait","table":"$T","timeout":0,"until":"!=","columns":["$C"],"rows":[{"nosuch":1}],"where":[]}`,
